@@ -95,6 +95,7 @@ pub async fn burn(left: u32) {
 
 pub fn run_block(seed: u64, faults: bool, st: &mut BStats) {
     let mut rng = Rng::new(seed);
+    tokio::chaos::configure(crate::prng::mix(seed, 5152), *Rng::new(crate::prng::mix(seed, 5151)).pick(&[0u64, 0, 30]));
     let start_h = *rng.pick(&[0u32, 1, 100, 800_000, u32::MAX - 50]);
     let env = Arc::new(Mutex::new(BEnv { height: start_h, polls: vec![], next: 1, told_max: 0, log: vec![], node: crate::node::Node::new(start_h, "0279be667ef9dcbbac55a06295ce870b07029bfcdb2dce28d959f2815b16f81798") }));
     let rt = tokio::runtime::Builder::new_current_thread().enable_time().start_paused(true).build().unwrap();
@@ -139,7 +140,7 @@ pub fn run_block(seed: u64, faults: bool, st: &mut BStats) {
             let bw = slot.lock().unwrap().clone();
             // R20a
             if let Some(bw) = &bw {
-                if let Some(h) = bw.current_height().now_or_never() {
+                if let Some(h) = tokio::chaos::quiet(|| bw.current_height().now_or_never()) {
                     let e = env.lock().unwrap();
                     local_evals.push(("R20a", (h == e.told_max) as u64 | (((e.told_max < e.height) as u64) << 1)));
                     if h != e.told_max {
@@ -173,7 +174,7 @@ pub fn run_block(seed: u64, faults: bool, st: &mut BStats) {
                 drop(e);
                 tokio::time::sleep(Duration::from_millis(1)).await;
                 if let Some(bw) = &bw {
-                    let h = bw.current_height().now_or_never();
+                    let h = tokio::chaos::quiet(|| bw.current_height().now_or_never());
                     let e = env.lock().unwrap();
                     local_evals.push(("R20b", (h == Some(e.height)) as u64));
                     if h != Some(e.height) {
